@@ -18,6 +18,13 @@ from .lib import ST, LibError, quiet, norm, fmt, wellformed
 CASE_TIMEOUT_S = 120
 
 
+def case_timeout():
+    """Per-case wall-clock guard in seconds (a hit means 'inconclusive', never a violation). The
+    runner re-runs an inconclusive case once, alone, with VERIF_CASE_S raised (transient load)."""
+    import os
+    return int(os.environ.get("VERIF_CASE_S", CASE_TIMEOUT_S))
+
+
 class CaseTimeout(Exception):
     pass
 
@@ -419,7 +426,7 @@ def execute(cfg, extra_next=3, want_trace=False, action_hook=None):
     t0 = time.time()
     res = Result(cfg=cfg, viol=[], status="ok")
     old = signal.signal(signal.SIGALRM, _alarm)
-    signal.alarm(CASE_TIMEOUT_S)
+    signal.alarm(case_timeout())
     mon = None
     try:
         numba_forced = bool(cfg.get("numba"))
